@@ -76,6 +76,24 @@ def generate(tier, seed):
             x, y = rnd.choice(pairs)
             ops.append((rnd.choice("AD"), x, y, None))
         cases.append(case(rnd.randint(0, 4), ops, q4))
+    # questions asked BETWEEN the mutations: an answer the manager gave must not survive a clear / delete / add that changes it
+    for _ in range(120 if tier == "quick" else 3000):
+        ops = []
+        for _ in range(rnd.randint(3, 10)):
+            c = rnd.random()
+            x, y = rnd.choice(NAMES), rnd.choice(NAMES)
+            d = rnd.choice([None, None, "d1"])
+            if c < 0.4:
+                ops.append(("A", x, y, d))
+            elif c < 0.55:
+                ops.append(("D", x, y, d))
+            elif c < 0.65:
+                ops.append(("C",))
+            else:
+                ops.append(("H", x, y, d))
+        # the same questions again right after a clear
+        ops += [("H", "a", "b", None), ("C",), ("H", "a", "b", None), ("H", "a", "c", None)]
+        cases.append(case(rnd.randint(2, 4), ops, all_queries(NAMES, [None, "d1"])))
     # names that are prefixes / suffixes of one another, and domain names that continue them: (a, ba), (ab, a), (aba, "") all
     # CONCATENATE to the same text - every (name1, name2, domain) question is its own question, in whatever order they are asked
     namesx = ["a", "ab", "b", "ba", "aba"]
